@@ -1814,6 +1814,12 @@ class FuncAnalysis:
         un = self._unroll_comp(gens, [k, v])
         if un is not None:
             return ('dict', tuple(('kv', kk, vv) for kk, vv in un))
+        # {v: i for i, v in enumerate(A)}  is the position map of A  (dict(zip(A, range(len(A)))))
+        if len(gens) == 1 and not gens[0][3]:
+            pat, it = gens[0][1], gens[0][2]
+            if pat[0] == 'tuple' and len(pat[1]) == 2 and v == pat[1][0] and k == pat[1][1] \
+                    and it[0] == 'call' and it[1] == T.G('enumerate') and len(it[2]) == 1 and not it[3]:
+                return ('call', T.G('$positions'), (it[2][0],), ())
         return ('comp', 'dict', ('kv', k, v), gens)
 
     # -- helpers the checker has never heard of ------------------------------------------------
